@@ -16,7 +16,7 @@ LEVEL = 'fault_enumeration'
 RULE = ('the byte streams a well-behaved client sends on the data connection are recorded from the real client code for five request kinds (worker, persistent '
         'worker, context create, context delete, worker-in-context). case = 1-4 faulty clients, each replaying a recorded stream cut at byte offset k with FIN or '
         'RST, or sending garbage, and, when the whole request was sent, failing the control-channel step (never connects / connects and closes / sends j bytes of '
-        'the recorded control stream and closes); optionally a healthy client\\\'s worker is running on the same server meanwhile. Oracle after the fault sequence: '
+        'the recorded control stream and closes); optionally a healthy client\\\'s worker is running on the same server meanwhile; the server of every second shard runs with close_on_none=True (as run_server() and the command line do). Oracle after the fault sequence: '
         'the server process is alive, a fresh RemoteWorker(sq, x) returns x*x within the guard, the concurrent healthy worker is still alive and later finishes with '
         'its own result. Non-trivial = some cut lies strictly inside a stream or at an inner message boundary, or a control-step fault; distinct = distinct case.')
 ASSUMPTIONS = ['a vanished client is modelled by closing (FIN) or resetting (RST) its sockets; half-open connections that never close are not modelled',
@@ -24,7 +24,7 @@ ASSUMPTIONS = ['a vanished client is modelled by closing (FIN) or resetting (RST
 SHRINK = 'greedy'
 SHRINK_RUNS = 6
 TIME_BUDGET = {'quick': 170, 'thorough': 1700}
-REQUIRED = {'quick': {'req:worker': 60, 'req:p_worker': 40, 'req:ctx_create': 40, 'req:ctx_delete': 30, 'req:worker_in_ctx': 30, 'cut:inside': 100, 'ctrl_step': 12, 'healthy_concurrent': 20, 'healthy_in_same_context': 60},
+REQUIRED = {'quick': {'req:worker': 60, 'req:p_worker': 40, 'req:ctx_create': 40, 'req:ctx_delete': 30, 'req:worker_in_ctx': 30, 'cut:inside': 100, 'ctrl_step': 12, 'healthy_concurrent': 20, 'healthy_in_same_context': 60, 'server_close_on_none': 100},
             'thorough': {'req:worker': 600, 'cut:inside': 1000, 'ctrl_step': 300}}
 REQS = ['worker', 'p_worker', 'ctx_create', 'ctx_delete', 'worker_in_ctx']
 PROBE_GUARD = 25.0
@@ -148,6 +148,9 @@ def _bounds(stream):
 
 
 def setup_shard(ctx):
+    # every second shard runs its server with close_on_none=True (the default of run_server() and of the command line): a *complete* None
+    # request is then the documented way to stop the server; none of the faulty clients ever sends one
+    ctx.data['server_close_on_none'] = bool(ctx.shard % 2)
     srv = IC.server(ctx)
     ctx.data['streams'] = bounded(record_streams, 60, srv.addr)
 
@@ -250,6 +253,7 @@ def run_case(case, ctx):
             ctx.data['streams'] = bounded(record_streams, 60, srv.addr)
         ctx.data['streams_for'] = id(srv)
     streams = ctx.data['streams']
+    out.label('server_close_on_none' if ctx.data.get('server_close_on_none') else 'server_keeps_running_on_none')
     healthy = None
     in_ctx = None
     if case.get('healthy') == 'in_ctx':
